@@ -21,6 +21,12 @@ def run(ctx):
     F = ctx.facts("default")
     sc, sites, st, tst = safety.run(ctx, F, scopes.C12_ENTRIES)
     ctx.floor("R-TERM", "PageTreeIter loops with verified witnesses", tst["verified"], 2)
+    skeleton_rules(ctx, F)
+
+
+def skeleton_rules(ctx, F):
+    """the structural rules of the page iterator (everything except the panic/termination inventory): shared with the
+    properties whose operations enumerate pages (renumbering, deleting pages, text extraction)."""
     nx = F.fn("<PageTreeIter as Iterator>::next")
     R = "R-ORDER"
     # rule 2: Some(_) only for Type == Page
